@@ -32,6 +32,8 @@ pub struct World {
     eff_lists: std::sync::Mutex<HashMap<ActId, Vec<EffId>>>,
     iters: std::sync::Mutex<HashMap<u32, Box<dyn Iterator<Item = (St, Act)> + Send>>>,
     sel_objs: std::sync::Mutex<HashMap<SubId, Arc<rs_store::SelectorSubscriber<St, Act, SSel, u64>>>>,
+    /// (subscriber, entry) pairs of `SubSpec::on_notify_ops` that have already run
+    notify_ops_done: std::sync::Mutex<std::collections::HashSet<(SubId, usize)>>,
 }
 
 impl World {
@@ -46,6 +48,7 @@ impl World {
             eff_lists: Default::default(),
             iters: Default::default(),
             sel_objs: Default::default(),
+            notify_ops_done: Default::default(),
         })
     }
     pub fn store(&self, ix: StoreIx) -> Option<Arc<TStore>> {
@@ -81,6 +84,9 @@ impl Reducer<St, Act> for SReducer {
         }
         if let Some((_, s)) = sc.red_stall.iter().find(|(c, _)| *c == self.comp) {
             w.ctx.stall(*s);
+        }
+        if let Some(other) = spec.pokes {
+            let _ = w.store(other).map(|s| s.get_state());
         }
         let out = mix(st, self.comp, a.id, sc.sel);
         let keep = sc.keeps(self.comp);
@@ -218,6 +224,9 @@ impl SMw {
             }
         }
         drop(d);
+        if let Some(other) = spec.pokes {
+            let _ = w.store(other).map(|s| s.get_state());
+        }
         let read = if spec.reads_state {
             w.store(sc.store).map(|s| s.get_state())
         } else {
@@ -287,6 +296,7 @@ impl Subscriber<St, Act> for SSub {
                 }
             }
         }
+        run_notify_ops(w, self.sub, a.id);
         if let Some(g) = spec.gate {
             w.ctx.gate(g).pass();
         }
@@ -308,6 +318,18 @@ impl Subscriber<St, Act> for SSub {
         if !spec.on_unsub_ops.is_empty() && !self.chained.swap(true, std::sync::atomic::Ordering::SeqCst) {
             for (i, op) in spec.on_unsub_ops.iter().enumerate() {
                 exec_op(&self.w, 2000 + self.sub, i as u32, op);
+            }
+        }
+    }
+}
+
+/// `SubSpec::on_notify_ops`: operations a subscriber performs from inside its callback.
+fn run_notify_ops(w: &Arc<World>, sub: SubId, act: ActId) {
+    let spec = w.scn().sub(sub);
+    for (k, (a, ops)) in spec.on_notify_ops.iter().enumerate() {
+        if *a == act && slock(&w.notify_ops_done).insert((sub, k)) {
+            for (i, op) in ops.iter().enumerate() {
+                exec_op(w, 3000 + sub, (16 * k + i) as u32, op);
             }
         }
     }
@@ -344,6 +366,9 @@ fn build_store(w: &Arc<World>, ix: StoreIx) -> Result<Arc<TStore>, StoreError> {
     let simple = spec.reducers.len() == 1 && spec.middlewares.is_empty() && spec.capacity == rs_store::DEFAULT_CAPACITY && spec.policy == Pol::Block;
     match &spec.ctor {
         Ctor::Simple if simple && spec.name == rs_store::DEFAULT_STORE_NAME => Ok(StoreImpl::new_with_reducer(init, mk_red(w, spec.reducers[0]))),
+        Ctor::Simple if spec.reducers.is_empty() && spec.middlewares.is_empty() && spec.capacity == rs_store::DEFAULT_CAPACITY && spec.policy == Pol::Block && spec.name == rs_store::DEFAULT_STORE_NAME => {
+            Ok(StoreImpl::new(init))
+        }
         Ctor::Simple if simple => StoreImpl::new_with_name(init, mk_red(w, spec.reducers[0]), spec.name.clone()),
         Ctor::NewWith | Ctor::Simple => StoreImpl::new_with(
             init,
@@ -505,6 +530,7 @@ fn do_op(w: &Arc<World>, op: &Op) -> Res {
                     let id = *sub;
                     s.subscribe_with_selector(SSel { w: w.clone(), sub: id, fresh }, move |val: u64, a: Act| {
                         w2.ctx.ev(Ev::SelCb { sub: id, val, act: a.id });
+                        run_notify_ops(&w2, id, a.id);
                     })
                 }
                 SubKind::SelectorObj { fresh } => {
@@ -515,6 +541,7 @@ fn do_op(w: &Arc<World>, op: &Op) -> Res {
                             let w2 = w.clone();
                             Arc::new(rs_store::SelectorSubscriber::new(SSel { w: w.clone(), sub: id, fresh }, move |val: u64, a: Act| {
                                 w2.ctx.ev(Ev::SelCb { sub: id, val, act: a.id });
+                                run_notify_ops(&w2, id, a.id);
                             }))
                         })
                         .clone();
